@@ -1,0 +1,44 @@
+//go:build verif
+
+package handler
+
+// Contracts for the deductive verifier in /verif (govc). Comment-only file: adds no code.
+
+// Failure handling of the signature gate: strict => 403 and the handler does not run; lenient => it runs.
+//@ func handleVerificationFailure
+//@   prop C04
+//@   ensures [strict-403] strict ==> calls(w.WriteHeader, 403) == 1 && calls(next.ServeHTTP) == 0
+//@   ensures [lenient-pass] !strict ==> calls(next.ServeHTTP, w, r) == 1 && calls(WriteHeader) == 0
+
+// The signature gate itself (per request): signed methods run the handler only after the header parsed and
+// the signature verified; other methods pass through.
+//@ func ContentSecurityHandler$1$1
+//@   prop C04
+//@   opaque ParseContentSecurity, VerifySignature, executeCallbacks, Errorf, CryptoHandler, Get
+//@   requires r != nil
+//@   let signed = r.Method == "DELETE" || r.Method == "GET" || r.Method == "POST" || r.Method == "PUT"
+//@   ensures [unsigned-methods-pass] !signed ==> calls(next.ServeHTTP, w, r) == 1 && calls(ParseContentSecurity) == 0
+//@   ensures [bad-header] signed && ret(ParseContentSecurity, 1) != nil ==> calls(next.ServeHTTP) == 0 && calls(executeCallbacks) == 1 && arg(executeCallbacks, 3) == strict && arg(executeCallbacks, 4) == 1 && calls(VerifySignature) == 0
+//@   ensures [bad-signature] signed && ret(ParseContentSecurity, 1) == nil && ret(VerifySignature) != 0 ==> calls(next.ServeHTTP) == 0 && calls(executeCallbacks) == 1 && arg(executeCallbacks, 3) == strict && arg(executeCallbacks, 4) == ret(VerifySignature)
+//@   ensures [verified] signed && ret(ParseContentSecurity, 1) == nil && ret(VerifySignature) == 0 ==> calls(executeCallbacks) == 0 && calls(ServeHTTP) == 1 && (calls(CryptoHandler) == 0 ==> calls(next.ServeHTTP, w, r) == 1)
+//@   ensures [verify-args] calls(VerifySignature) == 1 ==> arg(VerifySignature, 0) == r && arg(VerifySignature, 1) == ret(ParseContentSecurity, 0) && arg(VerifySignature, 2) == tolerance
+
+// unauthorized: answers 401 (once) and never runs the protected handler.
+//@ func unauthorized
+//@   prop C04
+//@   opaque detailAuthLog
+//@   ensures [401] calls(w.WriteHeader, 401) + calls(callback) >= 1 && (callback == nil ==> calls(w.WriteHeader, 401) == 1)
+
+// The JWT gate (per request): the handler runs iff the token parsed, is valid and carries map claims;
+// otherwise `unauthorized` answers and the handler does not run.
+//@ func Authorize$1$1
+//@   prop C04
+//@   opaque ParseToken, unauthorized, Context, WithContext
+//@   requires r != nil
+//@   let tok = ret(ParseToken, 0)
+//@   let admitted = ret(ParseToken, 1) == nil && tok.Valid && typeis(tok.Claims, jwt.MapClaims)
+//@   loop 1 iteration-ensures [registered-hidden] (k == "aud" || k == "exp" || k == "jti" || k == "iat" || k == "iss" || k == "nbf" || k == "sub") ==> calls(WithValue) == 0
+//@   loop 1 iteration-ensures [others-visible] !(k == "aud" || k == "exp" || k == "jti" || k == "iat" || k == "iss" || k == "nbf" || k == "sub") ==> calls(context.WithValue) == 1 && arg(context.WithValue, 1) == k && arg(context.WithValue, 2) == v && ctx == ret(context.WithValue)
+//@   ensures [rejected] !admitted ==> calls(next.ServeHTTP) == 0 && calls(unauthorized) == 1
+//@   ensures [admitted] admitted ==> calls(next.ServeHTTP) == 1 && calls(unauthorized) == 0
+//@   ensures [parse-args] calls(ParseToken) == 1 && arg(ParseToken, 1) == r && arg(ParseToken, 2) == secret && arg(ParseToken, 3) == authOpts.PrevSecret
